@@ -1,5 +1,6 @@
 """C24 - creating elements in batch equals creating them one by one (differential monitor over all create pairs)."""
 import copy
+import inspect
 
 import numpy as np
 import pandas as pd
@@ -9,16 +10,49 @@ from .. import common
 from ..gen import netgen
 
 PROPERTY = "C24"
-READY = False
-NOT_READY_REASON = "under construction"
+READY = True
 LEVEL = "exploration"
 TECHNIQUE = ("runtime monitoring: differential execution of every batch create function against the sequence of its single "
-             "counterpart on an identically prepared network (rows, index and accept/reject decision compared)")
-CASES = {"quick": 2000, "thorough": 60000}
+             "counterpart on an identically prepared network (created rows, their index and the accept/reject decision compared)")
+CASES = {"quick": 6000, "thorough": 200000}
 BUDGET = {"quick": 60, "thorough": 1500}
-FLOORS = {"quick": {"nontrivial": 100}, "thorough": {"nontrivial": 1000}}
-RULE = "tbd"
-ASSUMPTIONS = []
+CASE_TIMEOUT = 60
+_FAMS = ["bus", "bus_dc", "line", "line_fp", "line_dc", "line_dc_fp", "trafo", "trafo_fp", "trafo3w", "trafo3w_fp", "load", "sgen", "gen",
+         "storage", "shunt", "ward", "switch", "impedance", "poly_cost", "pwl_cost"]
+_QT = {"both_accept": 1500, "both_reject": 700, "both_reject:bad_node": 300, "both_reject:dup_index_existing": 100,
+       "both_reject:dup_index_within": 150, "scen:dup_cost_existing": 40, "scen:dup_cost_within": 15, "scen:bad_element": 10,
+       "scen:not_connected": 10, "std_with_shift": 120, "std_with_tap_changer": 200, "std_with_tap_step_degree": 40,
+       "std_with_zero_sequence": 80, "user_std_type": 250, "std_type_list": 80, "arg:tap_pos": 200, "arg:tap2_pos": 30, "arg:parallel": 300,
+       "arg:df": 300, "arg:zip_percent": 100, "arg:controllable": 150, "arg:max_p_mw": 100, "arg:slack": 40, "arg:slack_weight": 40,
+       "scalar_broadcast": 2000, "vector_arg": 2000, "partly_nan_vector": 400, "numpy_vectors": 600, "pre_rows": 1200,
+       "explicit_index": 800, "existing_poly_cost": 150, "existing_pwl_cost": 150, "cost_et_list": 120, "cost_et_scalar": 80,
+       "kwargs_column": 250}
+_QT.update({"fam:" + f: 120 for f in _FAMS})
+FLOORS = {"quick": {"nontrivial": 2500, "tags": _QT, "extras": {"cells": 70000}, "max_skip_frac": 0.1},
+          "thorough": {"nontrivial": 80000, "tags": {k: 25 * v for k, v in _QT.items()}, "extras": {"cells": 2000000}, "max_skip_frac": 0.1}}
+RULE = ("case k exercises create pair k mod 20 (bus, bus_dc, line, line_from_parameters, line_dc, line_dc_from_parameters, transformer, "
+        "transformer_from_parameters, transformer3w, transformer3w_from_parameters, load, sgen, gen, storage, shunt, ward, switch, "
+        "impedance, poly_cost, pwl_cost): a seeded network (buses with contiguous or gapped labels, dc buses, user std types with odd "
+        "shift/tap/zero-sequence values, 0-3 existing rows of the target table, existing costs, rows in sibling tables) and a seeded "
+        "argument vector for 1-5 elements (every optional argument absent, scalar-broadcast or per element, lists or numpy arrays, "
+        "partly-NaN vectors, explicit index lists); 30 % of the cases add an input the documentation says must be rejected (unknown "
+        "bus, duplicate index inside the batch / against existing rows, cost for an element that already has one / twice in the "
+        "batch, switch at an unknown element or at a bus the element is not connected to). The batch call runs on one deep copy, the "
+        "single calls on another. non-trivial = at least one side created rows or a rejection scenario was injected; distinct = "
+        "digest of the argument vector and scenario")
+ASSUMPTIONS = [
+    "compared: accept/reject decision (any exception = reject; classes are recorded, not compared), labels of the created rows, and "
+    "every column of the created rows except labels/documentation/plotting columns (name, std_type, geo, zone, curve_style; type of "
+    "bus, line, line_dc, gen, storage, switch); existing rows and the state after a rejected call are not compared",
+    "cells are equal when both are null (None/NaN/NA/'' = pandapower's empty default of text columns) or equal as numbers within "
+    "1e-12 relative (dtype-insensitive) or equal as text; an optional column that is absent/null on one side equals its documented "
+    "unset meaning on the other (controllable False, gen controllable True, min_vm_pu 0 / max_vm_pu 2, generator_type current_source, "
+    "tap_dependency_table / oltc / step_dependency_table / reactive_capability_curve / tdpf False, g0_us_per_km 0)",
+    "columns passed through **kwargs are compared like optional electrical columns (that is how zero-sequence, TDPF and short-circuit "
+    "columns enter the tables)",
+    "inputs outside the documented domain are not generated: std-type parameters overridden by keyword (documented to differ), "
+    "df <= 0, partially specified zero-sequence line data, deprecated const_z_percent/const_i_percent",
+]
 
 nan = np.nan
 
@@ -202,7 +236,7 @@ def base_net(g):
     return net
 
 
-def buses_of(net, vn=None, k=None):
+def buses_of(net, vn=None):
     b = net.bus.index[net.bus.vn_kv == vn] if vn is not None else net.bus.index
     return [int(x) for x in b]
 
@@ -728,7 +762,6 @@ def _cost_targets(g, sp, n):
 
 
 def gen_poly_cost(g, net, n):
-    n = min(n, 2) if False else n
     sp = Spec("poly_cost", n)
     _cost_targets(g, sp, n)
     sp.sv(g, "cp1_eur_per_mw", lambda: round(g.R(0, 50), 2))
@@ -890,7 +923,7 @@ def add_scenario(g, net, fam, sp, n_pre):
 MISSING = object()
 F12_COLS = ["shift_degree"] + ["tap%s_%s" % (s, k) for s in ("", "2") for k in (
     "side", "neutral", "min", "max", "step_percent", "step_degree", "changer_type")]
-TEXT_LIST_ARGS = {"trafo": ("tap_changer_type",), "trafo_fp": ("vector_group", "tap2_side", "tap2_changer_type"),
+TEXT_LIST_ARGS = {"trafo_fp": ("vector_group", "tap2_side", "tap2_changer_type"),
                   "trafo3w": ("tap_changer_type",), "trafo3w_fp": ("tap_changer_type",)}
 STD_KIND = {"trafo": "trafo", "trafo3w": "trafo3w", "line": "line", "line_dc": "line_dc"}
 
@@ -909,7 +942,7 @@ def std_of(net, fam, sp, i):
 
 def shunt_vn_model(net, sp):
     """create_shunts without vn_kv passes net.bus.vn_kv.loc[buses], a Series labelled by *bus*; _check_entry keeps it as a Series
-    when all its labels occur among the new shunt labels and DataFrame.assign then aligns it by label (shunt_create.py:153-154,
+    when all its labels occur among the new shunt labels and DataFrame.assign then aligns it by label (shunt_create.py:152-153,
     _utils.py:335-340).  Returns None (defect not triggered), 'crash' (duplicate bus labels cannot be aligned) or the predicted
     vn_kv of the created rows."""
     st, labels = index_model(net, sp, "shunt")
@@ -926,7 +959,7 @@ def explain_value(fam, net, sp, col, i, a, b):
     table = FAMILIES[fam][0]
     if fam == "trafo":
         std = std_of(net, fam, sp, i)
-        # create_transformers copies neither shift_degree nor any tap parameter of the std type (trafo_create.py:254-261)
+        # create_transformers copies neither shift_degree nor any tap parameter of the std type (trafo_create.py:257-261)
         if col in F12_COLS and col in std and unset(given(sp, col, i)):
             dropped = same(a, 0.0 if col == "shift_degree" else None) or (col == "tap2_side" and a == "nan" and col in net.trafo.columns)
             if same(b, std[col]) and dropped:     # ("nan": see unset_text_column_filled_with_nan_string)
@@ -939,7 +972,7 @@ def explain_value(fam, net, sp, col, i, a, b):
         if isinstance(pred, list) and same(a, pred[i]) and same(b, float(net.bus.vn_kv.at[sp.get("buses", i)])):
             return "shunts_default_vn_kv_aligned_by_label"
     if fam in ("line", "line_dc") and col in ("r0_ohm_per_km", "x0_ohm_per_km", "c0_nf_per_km", "alpha"):
-        # create_lines / create_lines_dc copy only r, x, c, max_i, g, type (line_create.py:383-398, 509-520)
+        # create_lines / create_lines_dc copy only r, x, c, max_i, g, type (line_create.py:366-382, 495-507)
         std = std_of(net, fam, sp, i)
         if col in std and unset(given(sp, col, i)) and _isnull(a) and same(b, std[col]):
             return "lines_std_type_optional_params_dropped"
@@ -953,7 +986,6 @@ def explain_value(fam, net, sp, col, i, a, b):
             return "unset_text_column_filled_with_nan_string"
     if fam in ("trafo3w", "trafo3w_fp") and col in sp.args and _isnull(b) and same(a, sp.get(col, i)):
         # the single 3w functions accept **kwargs and never store them (trafo_create.py:767-820, 1071-1110)
-        import inspect
         if col not in inspect.signature(getattr(pp, FAMILIES[fam][1])).parameters:
             return "transformer3w_single_ignores_kwargs"
     return None
@@ -971,8 +1003,8 @@ def index_model(net, sp, table):
     return "ok", idx
 
 
-WRONG_TABLE = {"line_dc_fp": ("line", "lines_dc_from_parameters_index_from_line_table"),   # line_create.py:1010
-               "ward": ("storage", "wards_index_from_storage_table")}                    # ward_create.py:140
+WRONG_TABLE = {"line_dc_fp": ("line", "lines_dc_from_parameters_index_from_line_table"),   # line_create.py:1013
+               "ward": ("storage", "wards_index_from_storage_table")}                    # ward_create.py:105
 
 
 def explain_wrong_table(fam, net, sp, scen, sa, la, sb, lb):
@@ -1055,11 +1087,11 @@ def explain_decision(fam, net, sp, scen, sa, ea, sb, eb):
     if sa == "reject" and sb == "ok":
         ets = [sp.get("et", i) for i in range(sp.n)] if fam == "switch" else []
         if fam == "switch" and isinstance(ea, UserWarning) and all(e == "t3" for e in ets):
-            return "switches_only_t3_rejected"          # switch_create.py:176-188
+            return "switches_only_t3_rejected"          # switch_create.py:205-217
         if fam == "shunt" and isinstance(ea, ValueError) and shunt_vn_model(net, sp) == "crash":
             return "shunts_default_vn_kv_aligned_by_label"
         if fam == "impedance" and not isinstance(ea, UserWarning) and ("rft0_pu" in sp.args or "gf0_pu" in sp.args):
-            return "impedances_zero_sequence_args_crash"    # impedance_create.py:500-509: scalar setter called with the index array
+            return "impedances_zero_sequence_args_crash"    # impedance_create.py:367-378: scalar setter called with the index array
         if isinstance(ea, TypeError) and any(k in sp.args and sp.args[k][0] == "v" for k in TEXT_LIST_ARGS.get(fam, ())):
             return "text_list_argument_isnan_typeerror"     # _utils.py:192-203 (_not_nan on a list of str/None)
     return None
@@ -1202,3 +1234,4 @@ def run_case(seed, tier, case_no):
     extra["unexplained"] = sum(1 for v in viols if v["mechanism"] is None)
     nontrivial = sa == "ok" or sb == "ok" or scen != "valid"
     return common.case(digest, nontrivial=nontrivial, tags=tags, violations=viols, sample=sample, evals=1 + n, extra=extra)
+assert _FAMS == FAM_ORDER
